@@ -161,6 +161,7 @@ def cmdTapSighash (spec : Bool) (a : List String) : String :=
           | .ok h => toHex h
           | .error .configure => "ERR configure_tx_txin"
           | .error .failed => "ERR failed"
+          | .error .inputCount => "ERR input-count"
           | .error (.step e) => sghErr e
     | _, _ => "bad-op"
   | _ => "bad-op"
